@@ -122,12 +122,25 @@ func zzC12Input(n, alpha int, tmpl string) []byte {
 		return b
 	}
 	b := vrt.Bytes("b", n)
-	if alpha == 0 {
-		vrt.InputBits(8 * n)
-	} else {
+	if alpha != 0 {
 		vrt.Assume(zzspec.InAlphabet(b, alpha))
 	}
 	return b
+}
+
+// zzC12Certify declares the size of the input space (partition certificate) when every draw
+// is full range: n free bytes, the symbolic options, and no assumption on number spellings.
+func zzC12Certify(n, alpha int, tmpl string, sym int, o *zzC12Opts) {
+	if alpha != 0 || tmpl != "" || sym&(zzC12CanonInts|zzC12CanonFloats) != 0 || o.has(zzC12CanonInts) || o.has(zzC12CanonFloats) {
+		return
+	}
+	bits := 8 * n
+	for i := 0; i < zzC12NOpts; i++ {
+		if sym&(1<<i) != 0 {
+			bits++
+		}
+	}
+	vrt.InputBits(bits)
 }
 
 // zzC12AssumeNoFloatWork restricts the symbolic bytes, under the CanonicalizeRaw* options, so
@@ -202,6 +215,7 @@ func VerifC12Format(n, alpha int, tmpl string, on, off, sym, indent int) {
 	b := zzC12Input(n, alpha, tmpl)
 	o := zzC12Draw(on, off, sym, indent)
 	opts := o.list()
+	zzC12Certify(n, alpha, tmpl, sym, &o)
 	zzC12AssumeNoFloatWork(b, tmpl, &o)
 	want := zzspec.ValidText(b, !o.has(zzC12AllowUTF8), !o.has(zzC12AllowDup), 10000)
 	v := Value(bytes.Clone(b))
@@ -233,6 +247,7 @@ func VerifC12Append(n, alpha int, tmpl string, on, off, sym, indent int, overlap
 	b := zzC12Input(n, alpha, tmpl)
 	o := zzC12Draw(on, off, sym, indent)
 	opts := o.list()
+	zzC12Certify(n, alpha, tmpl, sym, &o)
 	zzC12AssumeNoFloatWork(b, tmpl, &o)
 	want := zzspec.ValidText(b, !o.has(zzC12AllowUTF8), !o.has(zzC12AllowDup), 10000)
 	var dst, src, pre []byte
@@ -287,6 +302,7 @@ func VerifC12Wrap(n, alpha int, tmpl string, which, on, off, sym, indent int) {
 			eff.set[i], eff.val[i] = true, true
 		}
 	}
+	zzC12Certify(n, alpha, tmpl, sym, &eff)
 	zzC12AssumeNoFloatWork(b, tmpl, &eff)
 	want := zzspec.ValidText(b, !eff.has(zzC12AllowUTF8), !eff.has(zzC12AllowDup), 10000)
 	v := Value(bytes.Clone(b))
@@ -319,7 +335,10 @@ func VerifC12Wrap(n, alpha int, tmpl string, which, on, off, sym, indent int) {
 			vrt.Assert("C12/indent/tokens-verbatim", bytes.Equal(zzspec.StripSpace(v), zzspec.StripSpace(b)))
 		}
 	}
-	if eff.has(zzC12Multiline) || indent != 0 {
+	// Layout, where the documentation fixes it without relying on the defaults that Multiline
+	// implies for options passed by the caller of Compact/Indent/Canonicalize (these defaults are
+	// not applied there: see demo_compact_multiline_defaults; a layout matter, not a C12 one).
+	if indent != 0 || (which == 1 && !o.set[10]) {
 		pre, ind := "", "\t"
 		switch indent {
 		case 1:
@@ -330,7 +349,7 @@ func VerifC12Wrap(n, alpha int, tmpl string, which, on, off, sym, indent int) {
 			ind = ""
 		}
 		vrt.Assert("C12/wrap/elements-on-indented-lines", zzspec.ElementsIndented(v, pre, ind))
-	} else if !eff.has(zzC12SpColon) && !eff.has(zzC12SpComma) {
+	} else if !eff.has(zzC12Multiline) && !eff.has(zzC12SpColon) && !eff.has(zzC12SpComma) {
 		vrt.Assert("C12/wrap/no-whitespace", zzspec.NoSpace(v))
 	}
 	v2 := v.Clone()
